@@ -284,4 +284,9 @@ def run(ck: Checker):
         c05.check_terminal_item(ck, 'C03-9', p)
         c05.check_vocabulary(ck, 'C03-9', p)
     for q in ('fifo_stream', 'async_fifo_stream'):
-        fifo.check_consumer_pairing(ck, 'C03-9', fifo.discover(ck.repo, smod.func(q)))
+        m_ = fifo.discover(ck.repo, smod.func(q))
+        fifo.check_consumer_pairing(ck, 'C03-9', m_)
+        # parmap is map: the future enqueued with an element was made from that very element (after the preprocessor),
+        # once -- an element that is passed through, or paired with another element's future, is not func(element)
+        fifo.check_pair_freshness(ck, 'C03-9', m_)
+        fifo.check_one_handoff(ck, 'C03-9', m_)
